@@ -543,6 +543,18 @@ def gen_op(rng, impl, step, serial):
             op['ca'] = [[n, gen_kw(rng, 'any', n=rng.choice([1, 2]), for_child=True)] for n in dict.fromkeys(ks)]
         if 0.35 < r < 0.6:
             op['caa'] = gen_kw(rng, 'any', n=rng.choice([1, 1, 2]), for_child=True)
+        if r >= 0.78:
+            # both dicts, a field name that does not exist yet, the same key with DIFFERENT values
+            table = {'min_occurs': [0, 1, 2], 'max_occurs': [1, 2, 5], 'nillable': [True, False], 'sub_name': ['alt', 'other'],
+                     'exc': [True, False], 'read_only': [True, False]}
+            nm = rng.choice([n for n in FIELD_NAMES + ['later', 'zz'] if n not in names])
+            caa, one = [], []
+            for a in rng.sample(sorted(table), rng.choice([1, 2])):
+                v1, v2 = rng.sample(table[a], 2)
+                caa.append([a, aval(v1)])
+                one.append([a, aval(v2)])
+            op['caa'] = caa + gen_kw(rng, 'any', n=rng.choice([0, 1]), for_child=True)
+            op['ca'] = [[nm, one]] + ([[rng.choice(names), gen_kw(rng, 'any', n=1, for_child=True)]] if names and rng.random() < 0.5 else [])
         return op
     if name == 'sub':
         nf = rng.choice([0, 1, 2, 2, 3, 3, 4])
@@ -581,6 +593,12 @@ def gen_op(rng, impl, step, serial):
     c = rng.choice(cplx)
     existing = flat_names(pool[c])
     nm = rng.choice(FIELD_NAMES + ['h', 'i'] + existing[:2])
+    waiting = []
+    for v in (pool[c].Attributes._variants or ()):
+        waiting += [n for n in (v.Attributes._delayed_child_attrs or {}) if n not in waiting]
+    waiting += [n for n in (pool[c].Attributes._delayed_child_attrs or {}) if n not in waiting]
+    if waiting and rng.random() < 0.5:
+        nm = rng.choice(waiting)             # a field some variant has delayed child attributes for
     cand = [j for j in idx if not impl.reaches(pool[j], pool[c])]
     t = rng.choice(cand)
     if name == 'append':
@@ -627,6 +645,16 @@ def measure_facts():
     Bx.customize(min_occurs=1)
     Bx.append_field('zz', P.Unicode)
     f['varRuleX'] = 'inheritedFromBase' if 'zz' in A1x._type_info else 'ownPerClass'
+    # order of the delayed child attributes when a field is added later: does the field's own entry win?
+    for key, how in (('delayAppend', 'append'), ('delayInsert', 'insert')):
+        Ad = cx.ComplexModelMeta('C15FactD' + how, (cx.ComplexModel,), odict([('__module__', 'c15hist'), ('a', P.Integer)]))
+        Vd = Ad.customize(child_attrs_all=dict(min_occurs=1), child_attrs=dict(later=dict(min_occurs=2)))
+        if how == 'append':
+            Ad.append_field('later', P.Integer)
+        else:
+            Ad.insert_field(0, 'later', P.Integer)
+        mo = Vd._type_info['later'].Attributes.min_occurs
+        f[key] = 'allFirst' if mo == 2 else 'oneFirst'
     # does re-deriving `pattern` recompile the regex that validation uses?
     pa = P.Unicode(pattern='[a-z]+')(pattern='[0-9]+')
     f['patRule'] = 'always' if pa.Attributes._pattern_re.pattern == '[0-9]+' else 'onlyWhenUnset'
@@ -663,7 +691,7 @@ def measure_facts():
     return f
 
 
-GOOD = {'mandRule': 'copies', 'varRule': 'ownPerClass', 'varRuleX': 'ownPerClass', 'patRule': 'always', 'mslRule': 'followsRequested', 'colCopy': 'deep',
+GOOD = {'mandRule': 'copies', 'varRule': 'ownPerClass', 'varRuleX': 'ownPerClass', 'patRule': 'always', 'delayAppend': 'allFirst', 'delayInsert': 'allFirst', 'mslRule': 'followsRequested', 'colCopy': 'deep',
         'dictOrdered': True}
 
 
@@ -721,6 +749,8 @@ def facts15 : Facts15 where
   varRule := .%s
   varRuleX := .%s
   patRule := .%s
+  delayAppend := .%s
+  delayInsert := .%s
   mslRule := .%s
   colCopy := .%s
   dictOrdered := %s
@@ -740,7 +770,7 @@ def facts15 : Facts15 where
   xmlattrRoot := %d
 
 end SpyneModel.Generated
-''' % (f['mandRule'], f['varRule'], f['varRuleX'], f['patRule'], f['mslRule'], f['colCopy'], b(f['dictOrdered']), lean_str(f['mandPrefix']), lean_str(f['mandSuffix']),
+''' % (f['mandRule'], f['varRule'], f['varRuleX'], f['patRule'], f['delayAppend'], f['delayInsert'], f['mslRule'], f['colCopy'], b(f['dictOrdered']), lean_str(f['mandPrefix']), lean_str(f['mandSuffix']),
        lean_str(f['arrPrefix']), lean_str(f['arrSuffix']), ', '.join(lean_str(s) for s in f['prefNs']),
        ', '.join(lean_str(s) for s in MODEL_KEYS), lean_kw(f['numDefaults']), lean_kw(f['uniDefaults']),
        ',\n'.join(lines), names.index('ComplexModel'), names.index('Array'), names.index('Iterable'),
@@ -1093,6 +1123,14 @@ class Oracle:
                         want = [w for w in (caa, ca.get(n)) if w]
                         if want and n in srcf:
                             check_exact(self.ctx, t, srcf[n], want, 'child', self.report)
+            if k in ('mand', 'array') and new is not None and is_complex(new) and is_complex(pre['src']) and \
+                    (k == 'mand' or op.get('flat')):
+                # a variant of a variant: the delayed child attributes travel along
+                self.delayed[id(new)] = dict(self.delayed.get(id(pre['src']), {}))
+                if id(pre['src']) in self.delayed_all:
+                    self.delayed_all[id(new)] = self.delayed_all[id(pre['src'])]
+            if k == 'cust':
+                pass
             elif k == 'mand':
                 src = pre['src']
                 want = {'min_occurs': 1, 'nillable': False}
@@ -1458,6 +1496,22 @@ FACT_WITNESS = {
                 {'k': 'cust', 'src': I_, 'kw': _kw(ge=0, le=100)}, {'k': 'cust', 'src': 14, 'kw': _kw(ge=3, le=300)},
                 {'k': 'cust', 'src': 15, 'kw': _kw(values=[1, 2, 3])}, {'k': 'cust', 'src': 16, 'kw': _kw(values=[0])},
                 {'k': 'cust', 'src': 8, 'kw': _kw(values=['a', 'b'])}, {'k': 'cust', 'src': 18, 'kw': _kw(values=['abc'])}],
+    'delayAppend': [{'k': 'sub', 'name': 'DA', 'base': None, 'ns': None, 'fields': [['a', I_], ['b', U_]]},
+                    {'k': 'cust', 'src': 8, 'kw': [], 'ca': [['later', _kw(min_occurs=2, nillable=True)], ['b', _kw(min_occurs=2)]],
+                     'caa': _kw(min_occurs=1, nillable=False)},
+                    {'k': 'cust', 'src': 9, 'kw': _kw(max_occurs=2)},
+                    {'k': 'append', 'c': 8, 'name': 'later', 't': I_},
+                    {'k': 'insert', 'c': 8, 'idx': 0, 'name': 'later', 't': U_},
+                    {'k': 'cust', 'src': 8, 'kw': [], 'ca': [['z2', _kw(sub_name='alt')]], 'caa': _kw(sub_name='other')},
+                    {'k': 'insert', 'c': 8, 'idx': 1, 'name': 'z2', 't': B_}, {'k': 'append', 'c': 8, 'name': 'z2', 't': I_}],
+    'delayInsert': [{'k': 'sub', 'name': 'DA', 'base': None, 'ns': None, 'fields': [['a', I_], ['b', U_]]},
+                    {'k': 'cust', 'src': 8, 'kw': [], 'ca': [['later', _kw(min_occurs=2, nillable=True)], ['b', _kw(min_occurs=2)]],
+                     'caa': _kw(min_occurs=1, nillable=False)},
+                    {'k': 'cust', 'src': 9, 'kw': _kw(max_occurs=2)},
+                    {'k': 'append', 'c': 8, 'name': 'later', 't': I_},
+                    {'k': 'insert', 'c': 8, 'idx': 0, 'name': 'later', 't': U_},
+                    {'k': 'cust', 'src': 8, 'kw': [], 'ca': [['z2', _kw(sub_name='alt')]], 'caa': _kw(sub_name='other')},
+                    {'k': 'insert', 'c': 8, 'idx': 1, 'name': 'z2', 't': B_}, {'k': 'append', 'c': 8, 'name': 'z2', 't': I_}][:3] + [{'k': 'insert', 'c': 8, 'idx': 0, 'name': 'later', 't': U_}],
     'mslRule': [{'k': 'cust', 'src': I32_, 'kw': _kw(ge=0)}, {'k': 'cust', 'src': D_, 'kw': _kw(total_digits=5)}],
     'colCopy': [{'k': 'cust', 'src': U_, 'kw': _kw(max_len=32)}, {'k': 'cust', 'src': 8, 'kw': _kw(pk=True)},
                 {'k': 'cust', 'src': 8, 'kw': _kw(min_len=2)},
